@@ -3408,6 +3408,11 @@ for _pid, _obl, _notes in [
     _d["partial_hypotheses"] = _notes
 for _pid, _ov in LEAN_OBLIGATIONS.items():
     REGISTRY[_pid].update(_ov)
+# C15: idempotence itself has no theorem (yet): the property is decided by exploration (byte comparison of two minify passes on every program of the
+# streams); the Lean obligations listed are the proved facts about the minifier it rests on.  Flip to "proof" when Props.C15_idempotent exists.
+REGISTRY["C15"]["level"] = "exploration"
+REGISTRY["C15"]["level_text"] = ("differential exploration: parse, minify, parse, minify again and compare byte for byte on generated, enumerated and corpus programs; the Lean "
+                                 "theorems listed in the evidence (same-program theorem for the minified style, layout passes) are supporting facts, not a proof of idempotence")
 
 
 # =========================================================================== T2 correspondence: model resolver vs tumfl resolver
